@@ -3,7 +3,7 @@
 # (the owning property's check, or the check named in caught_by_other_property) and writes seeded/REGRESSION.txt
 cd /verif
 P=${1:-4}
-ls -d seeded/C??-? | xargs -P $P -I{} sh -c '
+ls -d seeded/C??-[0-9]* | xargs -P $P -I{} sh -c '
   d={}; other=$(python3 -c "import json;print(json.load(open(\"$d/meta.json\")).get(\"caught_by_other_property\",\"\") or \"\")" 2>/dev/null | cut -c1-3)
   if [ -n "$other" ]; then
     r=$(timeout 3000 python3 tools/cross_check.py $d $other 2>&1 | grep -E "VIOLATION" | head -n 1 | cut -c1-120); echo "$(basename $d) via $other: ${r:-MISSED}"
